@@ -70,6 +70,25 @@ def model_value(m, e, prec=30):
     return None
 
 
+def timed_check(solver, timeout_s):
+    """solver.check() with a hard watchdog: z3's own timeout is not always honoured inside nlsat, so a timer
+    thread interrupts the context shortly after the cap (the check then returns unknown)"""
+    import threading
+
+    ctx = solver.ctx
+    timer = threading.Timer(timeout_s + 2.0, ctx.interrupt)
+    timer.daemon = True
+    timer.start()
+    try:
+        try:
+            r = str(solver.check())
+        except z3.Z3Exception:
+            r = "unknown"
+    finally:
+        timer.cancel()
+    return r
+
+
 class Query:
     """One solver query: conds /\\ axioms /\\ not goal."""
 
@@ -94,7 +113,7 @@ class Query:
         s.add(list(extra))
         s.add(neg)
         t0 = time.time()
-        r = str(s.check())
+        r = timed_check(s, timeout_s)
         dt = time.time() - t0
         Query.count += 1
         Query.time += dt
@@ -112,7 +131,7 @@ class Query:
         s.add(conds)
         s.add(list(extra))
         t0 = time.time()
-        r = str(s.check())
+        r = timed_check(s, timeout_s)
         dt = time.time() - t0
         Query.count += 1
         Query.time += dt
@@ -142,7 +161,7 @@ def prove(oid, conds, goal, timeout_s, witness_vars=None, extra=(), instantiate=
         lemmas_total += len(lem)
         s.add(lem)
         t0 = time.time()
-        r = str(s.check())
+        r = timed_check(s, timeout_s)
         dt += time.time() - t0
         Query.count += 1
         Query.time += time.time() - t0
